@@ -40,6 +40,15 @@ func c16Gen(r *rand.Rand, tier string) []spec.Case {
 			add(spec.C16Case{Cookie: "correct", CfgCookie: "normal", Proto: pick(r, []string{"netrpc", "grpc"}), TLS: pick(r, []string{"none", "provider", "clientcert"}), Sets: st, MuxEnv: pick(r, muxes), Versions: vs, Strace: tier == "thorough" || r.Intn(2) == 0})
 		}
 	}
+	// a process that served in test mode before: the cookie rules still hold for the real Serve afterwards
+	for _, ck := range cookies {
+		for _, pr := range []string{"netrpc", "grpc"} {
+			add(spec.C16Case{Cookie: ck, CfgCookie: "normal", Proto: pr, TLS: "none", Sets: pick(r, []string{"legacy", "versioned"}), MuxEnv: "unset", PreTest: true, Strace: ck != "correct"})
+		}
+	}
+	for _, cc := range []string{"emptyKey", "emptyValue"} {
+		add(spec.C16Case{Cookie: "correct", CfgCookie: cc, Proto: "netrpc", TLS: "none", Sets: "legacy", MuxEnv: "unset", PreTest: true, Strace: true})
+	}
 	for _, cc := range []string{"emptyKey", "emptyValue"} {
 		for _, ck := range []string{"correct", "unset", "empty"} {
 			add(spec.C16Case{Cookie: ck, CfgCookie: cc, Proto: pick(r, []string{"netrpc", "grpc"}), TLS: "none", Sets: "legacy", MuxEnv: "unset", Strace: true})
@@ -62,7 +71,7 @@ func c16Judge(c spec.Case, evs []spec.Event, d *Death) CaseResult {
 		return CaseResult{Verdict: "inconclusive", Inconcl: o.SetupErr}
 	}
 	res := CaseResult{Verdict: "held", Counters: map[string]int{}}
-	res.Class = fmt.Sprintf("cookie=%s cfg=%s %s tls=%s mux=%s traced=%v versions=%q", p.Cookie, p.CfgCookie, p.Proto, p.TLS, p.MuxEnv, p.Strace, p.Versions)
+	res.Class = fmt.Sprintf("cookie=%s cfg=%s %s tls=%s mux=%s traced=%v versions=%q pretest=%v", p.Cookie, p.CfgCookie, p.Proto, p.TLS, p.MuxEnv, p.Strace, p.Versions, p.PreTest)
 	res.Sample = map[string]any{"case": p, "exited": o.Exited, "exit_code": o.ExitCode, "stdout": trunc(string(o.Stdout), 120), "sockets": len(o.Sockets), "binds": o.Binds, "listen_before_line": o.ListenBefore, "writes_to_fd1": o.Stdout1Writes}
 	viol := func(key, msg string) {
 		res.Verdict = "violated"
@@ -84,7 +93,11 @@ func c16Judge(c spec.Case, evs []spec.Event, d *Death) CaseResult {
 		if len(o.Sockets) != 0 {
 			viol("socket-left", fmt.Sprintf("socket files in the sandbox: %v", o.Sockets))
 		}
-		if o.Traced && len(o.Binds) > 0 {
+		allowedBinds := 0
+		if p.PreTest {
+			allowedBinds = 1 // the earlier test-mode serve legitimately opened (and closed) its own listener
+		}
+		if o.Traced && len(o.Binds) > allowedBinds {
 			viol("listener-opened-without-cookie", fmt.Sprintf("the process bound a listener although the cookie was wrong: %v", o.Binds))
 		}
 		if o.Traced {
